@@ -23,9 +23,9 @@ EVAL_KEY = "inputs_judged"
 DISTINCT_KEY = "inputs"
 NSHARDS = {"quick": 8, "thorough": 16}
 FLOORS = {"quick": {"inputs_judged": 60000, "outcome:accepted": 5000, "outcome:rejected": 30000, "step_envelope_checks": 60000,
-                    "root_block_types_accepted": 19, "long_inputs": 10, "stress_inputs_judged": 400},
+                    "root_block_types_accepted": 19, "long_inputs": 10, "stress_inputs_judged": 400, "syntax_error_positions_checked": 150},
           "thorough": {"inputs_judged": 800000, "outcome:accepted": 50000, "outcome:rejected": 400000, "step_envelope_checks": 800000,
-                       "root_block_types_accepted": 19, "long_inputs": 40, "stress_inputs_judged": 400}}
+                       "root_block_types_accepted": 19, "long_inputs": 40, "stress_inputs_judged": 400, "syntax_error_positions_checked": 3000}}
 ASSUMPTIONS = ["the step envelope is A*chars+B with A = 8 x the largest steps/char seen on the corpus in this run (floor 256), B = max(5000, 4 x the largest step count of 20 tiny rejected inputs); "
                "the CPU envelope is C*chars+D with C = 50 x the corpus median per-char cost, D = 50 ms, confirmed by 3 isolated repetitions",
                "bulk inputs go through reused Parser/MapfileToDict objects (same code path as loads); a sample goes through mappyfile.loads"]
@@ -314,6 +314,67 @@ def stress_inputs(r):
     return out
 
 
+def position_cases(ctx, J):
+    """A valid generated document + ONE offending token inserted at a known place: the syntax error must carry the line and
+    column of that token, counted in the caller's own text (a line break is LF; FF, tabs and a lone CR are ordinary characters)."""
+    res = ctx.res
+    r = ctx.rng("c11-pos")
+    import mappyfile
+    n = ctx.n(400, 8000)
+    for j in range(n):
+        nodes = gen.gen_document(r, gen.GenOpts(gated=ctx.gated, p_key=0.3, dup=0.0))[:1]
+        s = render.surfaces(r, 1)[0]
+        s.ws_kinds = r.choice([[" "], [" ", "\t"], [" ", "\t", "\f"], [" ", "\f"]])
+        s.gap_comments = r.choice([0.0, 0.2])
+        rr = render.render(nodes, s, r)
+        text = rr.text
+        toks = rr.tokens
+        if len(toks) < 3:
+            continue
+        kind = r.choice(["surplus-end", "stray-char", "surplus-end-at-eof"])
+        if kind == "surplus-end-at-eof":
+            prefix = text.rstrip("\n\r")
+            sep = r.choice([" ", "\f", "\n", "\r\n", "\t\f ", "\n\f"])
+            bad = prefix + sep + "END"
+            off = len(prefix) + len(sep)
+        else:
+            # insert the offending token in front of a token that starts a statement (so that it cannot be read as a value)
+            cands = [t for t in toks[1:] if t.role in ("key", "open", "end")]
+            if not cands:
+                continue
+            t = r.choice(cands)
+            line_starts = [0]
+            for i, ch in enumerate(text):
+                if ch == "\n":
+                    line_starts.append(i + 1)
+            off = line_starts[t.line - 1] + t.col - 1
+            ins = {"surplus-end": "END", "stray-char": r.choice(["@", "$", "&", "?"])}[kind]
+            if kind == "surplus-end" and t.role != "open":
+                continue  # a surplus END is only certainly an error in front of the root's own END / at top level; use the eof variant
+            bad = text[:off] + ins + r.choice([" ", "\f", "\t"]) + text[off:]
+        line = bad.count("\n", 0, off) + 1
+        col = off - (bad.rfind("\n", 0, off) + 1) + 1
+        case = {"category": "syntax-error-position", "text": bad if len(bad) < 4000 else bad[:4000], "kind": kind, "expected": [line, col]}
+        public = (j % 40 == 0)
+        try:
+            if public:
+                mappyfile.loads(bad)
+            else:
+                J.m.transform(J.p.parse(bad))
+            res.count("position_case_accepted(not judged)")
+            continue
+        except J.lark.exceptions.UnexpectedInput as ex:
+            res.count("syntax_error_positions_checked")
+            res.seen("position-case-kinds", kind + ("/ff" if "\f" in bad[:off] else "") + ("/crlf" if "\r\n" in bad[:off] else ""))
+            got = [getattr(ex, "line", None), getattr(ex, "column", None)]
+            if kind == "surplus-end" and got != [line, col]:
+                continue  # the parser may legitimately report the first token it cannot place after a mis-nested END
+            if got != [line, col]:
+                res.violation("syntax-error-position-wrong", case, got, [line, col])
+        except Exception as ex:
+            res.count("position_case_other_exception:" + type(ex).__name__)
+
+
 def run_stress(ctx, J):
     """Pathological short inputs in a child process under RLIMIT_CPU: a kill at the CPU limit is a verdict on CPU time (the
     envelope for a < 3 kB input is ~0.3 s; the limit is 12 s), never on wall clock."""
@@ -461,6 +522,7 @@ def _run(ctx):
         res.maximum("largest_input_chars", len(text))
         J.judge(text, cat, depth_ok=depth_ok)
     J.steps.stop()
+    position_cases(ctx, J)
     run_stress(ctx, J)
 
 
